@@ -38,6 +38,21 @@ def corpus(prop):
         for name in sorted(os.listdir(bd)):
             if name.endswith(".diff"):
                 cases.append(dict(name="benign:" + name[:-5], patch=os.path.join(bd, name), kind="twin"))
+    # Cython kernel corpus written by sub-agents (cannot be compiled here, hence not "seeded changes"): benign refactorings are twins for every
+    # property, bug-introducing edits are mutants for the properties listed in kernel/mutants/INDEX.json
+    kb = os.path.join(core.VERIF, "kernel", "benign")
+    if os.path.isdir(kb):
+        for name in sorted(os.listdir(kb)):
+            if name.endswith(".diff"):
+                cases.append(dict(name="kernel-benign:" + name[:-5], patch=os.path.join(kb, name), kind="twin"))
+    km = os.path.join(core.VERIF, "kernel", "mutants")
+    idx = os.path.join(km, "INDEX.json")
+    if os.path.exists(idx):
+        import json
+
+        for name, props in sorted(json.load(open(idx)).items()):
+            if prop in props:
+                cases.append(dict(name="kernel-mutant:" + name, patch=os.path.join(km, name + ".diff"), expect=None, kind="mutant"))
     return cases
 
 
